@@ -13,6 +13,8 @@ from __future__ import annotations
 import ast
 import os
 
+from harness import c01_pynorm as pynorm
+
 
 class Untranslatable(Exception):
     pass
@@ -55,11 +57,16 @@ def mod_rule(conv_path):
     for n in ast.walk(tree):
         if isinstance(n, ast.FunctionDef) and n.name == "_translate_binary_op_expr":
             want = ast.dump(ast.parse(MOD_TEMPLATE))
+            cwant = pynorm.alpha_dump_stmts(ast.parse(MOD_TEMPLATE).body)
+            try:        # parameters by position, so that the free names of the template mean the same thing
+                n = pynorm.rename_params(n, ["self", "node"])
+            except pynorm.NotNormalisable:
+                pass
             body = [s for s in n.body]
             # statements 2 and 3 of the body (after `op = type(node.op)` and the primop_map test)
             for i in range(len(body) - 1):
                 got = ast.dump(ast.parse(ast.unparse(ast.Module(body=body[i:i + 2], type_ignores=[]))))
-                if got == want:
+                if got == want or pynorm.alpha_dump_stmts(body[i:i + 2]) == cwant:
                     return "float-literal-rhs"
             raise Untranslatable(where, "the fmod special case of `%` in _translate_binary_op_expr changed shape")
     raise Untranslatable(where, "_translate_binary_op_expr not found")
@@ -80,22 +87,34 @@ def tensor_methods(tensor_path):
     for f in cls[0].body:
         if not isinstance(f, ast.FunctionDef) or not (f.name.startswith("__") and f.name.endswith("__")) or f.name in skip:
             continue
+        # equivalent spellings (c01_pynorm): parameters by position, `t = E; return g(t)`, if/else vs early return
+        try:
+            if len(f.args.args) in (1, 2) and not (f.args.posonlyargs or f.args.kwonlyargs or f.args.vararg or f.args.kwarg):
+                f = pynorm.rename_params(f, ["self", "other"][:len(f.args.args)])
+        except pynorm.NotNormalisable:
+            pass
         args = [a.arg for a in f.args.args]
         body = [s for s in f.body if not (isinstance(s, ast.Expr) and isinstance(s.value, ast.Constant))]
         src = ast.unparse(ast.Module(body=body, type_ignores=[]))
         if f.name == "__mod__":
             want = (f"if self.onnx_dtype in {FLOAT_SET_SRC}:\n    return self._opset.Mod(self, other, fmod=1)\n"
                     "return self._opset.Mod(self, other)")
-            if ast.dump(ast.parse(src)) != ast.dump(ast.parse(want)):
+            if (ast.dump(ast.parse(src)) != ast.dump(ast.parse(want))
+                    and pynorm.alpha_dump_stmts(body) != pynorm.alpha_dump_stmts(ast.parse(want).body)):
                 raise Untranslatable(where, f"Tensor.__mod__ changed shape (line {f.lineno})")
             res.append(("__mod__", "mod-by-dtype", "Mod", False, []))
             continue
         if f.name == "__ne__":
             want = "temp = self._opset.Equal(self, other)\nreturn self._opset.Not(temp)"
-            if ast.dump(ast.parse(src)) != ast.dump(ast.parse(want)):
+            if (ast.dump(ast.parse(src)) != ast.dump(ast.parse(want))
+                    and pynorm.alpha_dump_stmts(body) != pynorm.alpha_dump_stmts(ast.parse(want).body)):
                 raise Untranslatable(where, f"Tensor.__ne__ changed shape (line {f.lineno})")
             res.append(("__ne__", "not-equal", "Equal", False, []))
             continue
+        if len(body) > 1:
+            g = ast.parse("def _m_():\n    pass").body[0]
+            g.body = body
+            body = pynorm.flatten(pynorm.inline_single_use(g).body)
         ok = len(body) == 1 and isinstance(body[0], ast.Return) and isinstance(body[0].value, ast.Call)
         if ok:
             c = body[0].value
